@@ -45,7 +45,7 @@ impl Scenario for C10S {
         "C10"
     }
     fn variants(&self) -> &'static [&'static str] {
-        &["os", "inproc"]
+        &["os", "inproc", "hook"]
     }
     fn count(&self, tier: Tier, variant: &str) -> u64 {
         match (tier, variant) {
